@@ -7,7 +7,9 @@ require (
 	gopkg.in/yaml.v3 v3.0.1
 )
 
+require golang.org/x/sync v0.10.0 // indirect
+
 require (
-	golang.org/x/mod v0.22.0 // indirect
-	golang.org/x/sync v0.10.0 // indirect
+	github.com/transparency-dev/formats v0.0.0-20241003145927-a04dcc2a37e4
+	golang.org/x/mod v0.24.0
 )
